@@ -42,6 +42,7 @@ func genC20(o *vcoq.Out, r *vcoq.Rand, tier string) error {
 	g.publication()
 	g.constructors()
 	g.vendStore()
+	g.meterMask()
 	return nil
 }
 
